@@ -117,6 +117,38 @@ func runProd(text string, o Opts) (r prodResult) {
 	return r
 }
 
+// runProdHostCall executes text (which only defines functions) and then has
+// the HOST call the global function fn with one int argument on a fresh
+// thread, whose call stack is empty: the callee is the outermost frame.
+func runProdHostCall(text string, o Opts, fn string, arg int) (r prodResult) {
+	h := newHost()
+	defer func() {
+		if p := recover(); p != nil {
+			r.Panic = fmt.Sprint(p)
+		}
+		r.Probes = h.probes
+		r.Trace = h.trace
+	}()
+	g, err := starlark.ExecFileOptions(fileOptions(o), h.th, "p.star", text, h.pre)
+	if err == nil {
+		th := &starlark.Thread{Name: "c09-host-call"}
+		th.SetMaxExecutionSteps(2_000_000)
+		_, err = starlark.Call(th, g[fn], starlark.Tuple{starlark.MakeInt(arg)}, nil)
+	}
+	switch e := err.(type) {
+	case nil:
+	case syntax.Error:
+		r.Static, r.Parser, r.Line, r.Col, r.Msg = true, true, int(e.Pos.Line), int(e.Pos.Col), e.Msg
+	case resolve.ErrorList:
+		r.Static, r.Line, r.Col, r.Msg = true, int(e[0].Pos.Line), int(e[0].Pos.Col), e[0].Msg
+	case resolve.Error:
+		r.Static, r.Line, r.Col, r.Msg = true, int(e.Pos.Line), int(e.Pos.Col), e.Msg
+	default:
+		r.Runtime = err.Error()
+	}
+	return r
+}
+
 // ---------------------------------------------------------------------------
 // judging one (program, options) pair
 
@@ -194,6 +226,7 @@ type Case struct {
 	Opts  int    `json:"opts"`
 	Text  string `json:"text,omitempty"`
 	Graph *Graph `json:"graph,omitempty"`
+	Entry *entryCase `json:"entry_case,omitempty"`
 }
 
 type finding struct {
@@ -416,6 +449,21 @@ func worker(c *fw.Ctx) *fw.Stats {
 	for lvi, lv := range levels(c.Thorough()) {
 		unit = int64(lvi) << 40 // the same numbering in every shard wherever an earlier level stopped
 		if lv.lists {
+			// every option x every entry point of the API (small; part of this level)
+			forEachEntryCase(func(i int64, ec entryCase) bool {
+				if !c.Mine(i) {
+					return true
+				}
+				st.Evals++
+				st.Nontrivial++
+				st.Outcome("entry-point:" + ec.Entry)
+				if what := checkEntry(ec); what != "" {
+					ec := ec
+					kind := "entry-point"
+					lim.add([]finding{{kind + ":" + ec.Entry + ":" + ec.Prog, fmt.Sprintf("%s:%s:%s:%d", kind, ec.Entry, ec.Prog, ec.Opts), what, Case{Part: "entry", Opts: ec.Opts, Entry: &ec}}})
+				}
+				return true
+			})
 			listOpts := []int{0, 63, 1 << 5}
 			completed := true
 			forEachListProgram(func(idx int64, name string, file *Node) bool {
@@ -606,6 +654,12 @@ func replay(c *fw.Ctx, raw json.RawMessage) []fw.Viol {
 		fw.Fatal("bad case: %v", err)
 	}
 	var fs []finding
+	if cs.Part == "entry" {
+		if what := checkEntry(*cs.Entry); what != "" {
+			return []fw.Viol{{Key: fmt.Sprintf("entry-point:%s:%s:%d", cs.Entry.Entry, cs.Entry.Prog, cs.Entry.Opts), What: what}}
+		}
+		return nil
+	}
 	if cs.Part == "recursion" {
 		fs = checkGraph(*cs.Graph, optsFromBits(cs.Opts).Recursion, nil)
 	} else {
